@@ -1,6 +1,7 @@
 mod exchange;
 mod genx;
 mod head;
+mod hostile;
 mod transport;
 mod util;
 
@@ -11,6 +12,55 @@ use std::sync::{Arc, Mutex};
 use std::time::{Duration, Instant};
 
 use serde_json::Value;
+
+#[global_allocator]
+static ALLOC: hostile::CountingAlloc = hostile::CountingAlloc;
+
+// ---- an abort (e.g. a failed huge allocation) in the code under test is data: report which scenario ----
+static ABORT_FD: std::sync::atomic::AtomicI32 = std::sync::atomic::AtomicI32::new(-1);
+static CUR_SCEN: [AtomicUsize; 64] = [const { AtomicUsize::new(0) }; 64];
+thread_local! { static WORKER: std::cell::Cell<usize> = const { std::cell::Cell::new(usize::MAX) }; }
+
+extern "C" fn on_abort(_sig: libc::c_int) {
+    let fd = ABORT_FD.load(Ordering::SeqCst);
+    let w = WORKER.try_with(|w| w.get()).unwrap_or(usize::MAX);
+    let mut buf = [0u8; 32];
+    let mut n = 0;
+    let mut emit = |v: usize| {
+        // decimal without allocation
+        let mut digits = [0u8; 20];
+        let mut k = 0;
+        let mut x = v;
+        loop {
+            digits[k] = b'0' + (x % 10) as u8;
+            k += 1;
+            x /= 10;
+            if x == 0 {
+                break;
+            }
+        }
+        while k > 0 {
+            k -= 1;
+            buf[n] = digits[k];
+            n += 1;
+        }
+        buf[n] = b'\n';
+        n += 1;
+    };
+    if w < 64 {
+        emit(CUR_SCEN[w].load(Ordering::SeqCst));
+    } else {
+        if let Some(v) = CUR_SCEN.iter().map(|c| c.load(Ordering::SeqCst)).find(|&v| v != 0) {
+            emit(v);
+        }
+    }
+    unsafe {
+        if fd >= 0 {
+            libc::write(fd, buf.as_ptr() as *const libc::c_void, n);
+        }
+        libc::_exit(4);
+    }
+}
 
 fn arg(args: &[String], name: &str) -> Option<String> {
     args.iter().position(|a| a == name).and_then(|i| args.get(i + 1).cloned())
@@ -30,6 +80,14 @@ fn run_all(kind: &str, input: &str, outdir: &str, threads: usize, budget: Durati
     let current: Arc<Mutex<Vec<Option<(usize, Instant)>>>> = Arc::new(Mutex::new(vec![None; threads]));
     let done = Arc::new(AtomicUsize::new(0));
     std::fs::create_dir_all(outdir).unwrap();
+    {
+        let path = std::ffi::CString::new(format!("{}/ABORT.txt", outdir)).unwrap();
+        let fd = unsafe { libc::open(path.as_ptr(), libc::O_CREAT | libc::O_WRONLY | libc::O_TRUNC, 0o644) };
+        ABORT_FD.store(fd, Ordering::SeqCst);
+        unsafe {
+            libc::signal(libc::SIGABRT, on_abort as *const () as libc::sighandler_t);
+        }
+    }
     let mut handles = Vec::new();
     for t in 0..threads {
         let lines = lines.clone();
@@ -44,6 +102,7 @@ fn run_all(kind: &str, input: &str, outdir: &str, threads: usize, budget: Durati
                 .spawn(move || {
                     let mut out = BufWriter::new(File::create(&path).unwrap());
                     let mut nscen = 0usize;
+                    WORKER.with(|w| w.set(t));
                     loop {
                         // contiguous blocks keep related scenarios in one shard
                         let i = next.fetch_add(1, Ordering::SeqCst);
@@ -51,6 +110,7 @@ fn run_all(kind: &str, input: &str, outdir: &str, threads: usize, budget: Durati
                             break;
                         }
                         current.lock().unwrap()[t] = Some((i, Instant::now()));
+                        CUR_SCEN[t % 64].store(i + 1, Ordering::SeqCst);
                         let sc: Value = serde_json::from_str(&lines[i]).expect("scenario json");
                         let evs = match kind.as_str() {
                             "exchange" => match util::gs(&sc, "kind") {
@@ -60,6 +120,7 @@ fn run_all(kind: &str, input: &str, outdir: &str, threads: usize, budget: Durati
                                 },
                                 _ => exchange::run(&sc),
                             },
+                            "hostile" => hostile::run(&sc),
                             "head" => head::expand(&sc, i).iter().flat_map(head::run).collect(),
                             _ => panic!("unknown runner {}", kind),
                         };
@@ -125,6 +186,7 @@ fn main() {
             let seed: u64 = arg(&args, "--seed").and_then(|s| s.parse().ok()).unwrap_or(1);
             let tier = arg(&args, "--tier").unwrap_or("quick".into());
             let scs: Vec<String> = match family.as_str() {
+                "hostile" => hostile::generate(seed, &tier).into_iter().map(|v| v.to_string()).collect(),
                 "h_large" => head::generate(seed, &tier).into_iter().map(|v| v.to_string()).collect(),
                 _ => genx::generate(&family, seed, &tier),
             };
